@@ -309,7 +309,21 @@ def check_solution_shape(sol, system, solver_name, out_violations):
         if val.shape != want:
             out_violations.append(violation("field_shape", f"{solver_name}.{name}", f"Solution.{name} has shape {val.shape}, expected {want} (one row per instant, width {dim}={getattr(system, dim)})"))
             return False
-    # iteration
+    # iteration; other Solution objects with other field sets have been iterated in this process before (a plain
+    # one with the base fields, one with a user field): the records of this one carry its own fields
+    try:
+        from cardillo.solver.solution import Solution as _Solution
+
+        _t = np.array([0.0, 1.0])
+        _q = np.zeros((2, system.nq))
+        list(_Solution(system, _t, _q))
+        decoy = list(_Solution(system, _t, _q, u=np.zeros((2, system.nu)), zz_user=np.array([[1.0], [2.0]])))
+        if [float(np.asarray(getattr(r, "zz_user", [np.nan]))[0]) for r in decoy] != [1.0, 2.0]:
+            out_violations.append(violation("iterator", f"{solver_name}/user_field", f"records of a Solution with a user-supplied field do not carry it: fields {getattr(decoy[0], '_fields', None) if decoy else None}"))
+            return False
+    except Exception as e:
+        out_violations.append(violation("iterator", f"{solver_name}/user_field", f"iterating a Solution with a user-supplied field raised {type(e).__name__}: {e}"))
+        return False
     try:
         recs = list(sol)
     except Exception as e:
@@ -339,8 +353,20 @@ def check_solution_shape(sol, system, solver_name, out_violations):
                 )
             )
             return False
+    stored = [k for k in vars(sol) if k not in ("system", "solver_summary") and not k.startswith("_")]
     for i in sorted({0, nt // 2, nt - 1}):
         rec = recs[i]
+        missing = [k for k in stored if getattr(sol, k) is not None and k not in rec._fields]
+        extra = [k for k in rec._fields if k not in stored]
+        if missing or extra:
+            out_violations.append(
+                violation(
+                    "iterator",
+                    f"{solver_name}/fields",
+                    f"record {i} has fields {list(rec._fields)} but the Solution stores {stored}: missing {missing}, not stored {extra} (another Solution with other fields was iterated before in this process)",
+                )
+            )
+            return False
         for name in rec._fields:
             val = getattr(sol, name)
             got = getattr(rec, name)
